@@ -6,6 +6,8 @@
  *   bp <nworkers> <max_backlog> <sched-seed> <blocksize> <file>*        file = <size>:<kind>
  *      kind r random bytes | c compressible | z zeros (sparse) | d same content as the previous r/c/e file
  *           | e random, but the first byte is 0xEE: the fake compressor FAILS on a block starting with 0xEE
+ *   bpn …  the same, but a block starting with 0xEE is merely incompressible (what the output looks like when the
+ *          failure goes unnoticed)
  *
  * The whole client (create processor, begin/append/end per file, finish, destroy) runs as modelled thread 0;
  * the workers are created by thread_pool_create.  Prints
@@ -45,12 +47,14 @@ static void fake_get_configuration(const sqfs_compressor_t *c, sqfs_compressor_c
 static int fake_write_options(sqfs_compressor_t *c, sqfs_file_t *f) { (void)c; (void)f; return 0; }
 static int fake_read_options(sqfs_compressor_t *c, sqfs_file_t *f) { (void)c; (void)f; return 0; }
 
+static int g_nofail;             /* `bpn` lines: a block starting with 0xEE is merely incompressible */
+
 static sqfs_s32 fake_do_block(sqfs_compressor_t *c, const sqfs_u8 *in, sqfs_u32 size, sqfs_u8 *out, sqfs_u32 outsize)
 {
 	sqfs_u32 i;
 	(void)c;
 	if (size > 0 && in[0] == 0xEE)
-		return SQFS_ERROR_COMPRESSOR;
+		return g_nofail ? 0 : SQFS_ERROR_COMPRESSOR;
 	if (size < 8 || size / 2 > outsize)
 		return 0;
 	for (i = 1; i < size; i += 2)
@@ -278,10 +282,11 @@ static void run_line(char *line)
 	uint64_t x;
 	unsigned long steps0;
 	int dl = 0, mtx = 0, guard = 0;
-	if (!cmd || strcmp(cmd, "bp") != 0 || !a1 || !a2 || !a3 || !a4) {
+	if (!cmd || (strcmp(cmd, "bp") != 0 && strcmp(cmd, "bpn") != 0) || !a1 || !a2 || !a3 || !a4) {
 		puts("bad-op");
 		return;
 	}
+	g_nofail = strcmp(cmd, "bpn") == 0;
 	g_workers = atoi(a1);
 	g_backlog = atoi(a2);
 	x = strtoull(a3, NULL, 10) * 2862933555777941757ULL + 3037000493ULL;
